@@ -11,18 +11,21 @@ def handle (input impl : Json) : R Reply := do
   let cfg ← cfgOf (← field input "cfg")
   let agreed ← listF checkResult input "agreed"
   let got ← listF (listOf checkResult) impl "reports"
-  let want := reports cfg agreed
+  let failAt ← asNat (fieldD input "encFailAt" (.num 0))
+  let (want, wantErr) := reportsCall cfg agreed failAt
   -- glue: what comes back to libocr is, report by report and in order, what the encoder was handed; nothing failed
   let enc ← listOf (listOf checkResult) (fieldD impl "encoded" (.arr #[]))
-  let encOk := match fieldD impl "encoded" .null with | .null => true | _ => decide (enc = got)
+  let encOk := match fieldD impl "encoded" .null with | .null => true | _ => decide (enc = encoderCalls cfg agreed failAt)
   let nrep ← asNat (fieldD impl "nreports" (.num got.length))
   let errS := match fieldD impl "err" (.str "") with | .str s => s | _ => "?"
-  let glueOk := encOk && decide (nrep = got.length) && errS == ""
+  let glueOk := encOk && decide (nrep = got.length) && ((errS != "") == wantErr)
   let agree := decide (got = want) && glueOk
-  let sm := spec cfg agreed want
-  let si := spec cfg agreed got
+  -- when the encoder fails the call fails: libocr gets an error, no reports are used, the property has nothing to say
+  let sm := wantErr || spec cfg agreed want
+  let si := (errS != "") || spec cfg agreed got
   let tags :=
     (if want.length > 1 then ["multi-report"] else []) ++
+    (if decide (failAt > 0) then [if wantErr then s!"encoder-fails:call-{min failAt 3}{if failAt > 3 then "+" else ""}" else "encoder-armed-not-reached"] else []) ++
     (if agreed.any (fun r => decide (r.gas + cfg.overhead > cfg.gasLimit)) then ["over-limit-item"] else []) ++
     (if !decide ((agreed.map (·.upkeepID)).Nodup) then ["repeated-upkeep"] else []) ++
     (if want.any (fun r => decide (r.length = cfg.batch)) then ["full-batch"] else []) ++
